@@ -461,6 +461,36 @@ func (e *emitter) c09Calls(s *source, rel, goName, leanName string) {
 		goName, rel, leanName, strings.Join(items, ",\n   "))
 }
 
+// c09Fields emits the key/value pairs of the first composite literal of type `typ` in a function as a typed list
+// (field, value expression): which field of the constructed value is fed from what.
+func (e *emitter) c09Fields(s *source, rel, goName, typ, leanName string) {
+	fd := s.findFunc(rel, goName)
+	var lit *ast.CompositeLit
+	if fd != nil {
+		ast.Inspect(fd.Body, func(n ast.Node) bool {
+			if cl, ok := n.(*ast.CompositeLit); ok && lit == nil && cl.Type != nil && s.src(cl.Type) == typ {
+				lit = cl
+			}
+			return lit == nil
+		})
+	}
+	if lit == nil {
+		e.errors = append(e.errors, "composite literal "+typ+" not found in "+goName+" ("+rel+")")
+		e.printf("/-- MISSING -/\ndef %s : List (String × String) := []\n\n", leanName)
+		return
+	}
+	var items []string
+	for _, el := range lit.Elts {
+		if kv, ok := el.(*ast.KeyValueExpr); ok {
+			items = append(items, fmt.Sprintf("(%s, %s)", leanString(s.src(kv.Key)), leanString(s.src(kv.Value))))
+		} else {
+			items = append(items, fmt.Sprintf("(\"\", %s)", leanString(s.src(el))))
+		}
+	}
+	e.printf("/-- fields of the `%s` literal built in `%s` (%s) -/\ndef %s : List (String × String) :=\n  [%s]\n\n",
+		typ, goName, rel, leanName, strings.Join(items, ", "))
+}
+
 func init() {
 	register("C09", func(s *source, e *emitter) {
 		const tree = "core/search/tree.go"
@@ -570,6 +600,15 @@ func init() {
 		e.c09Cond(s, eng, "engine.bindRoute", "condBindRouteNative", c09If(0), []c09Param{{"chn", "chn", "flag"}})
 		e.c09Cond(s, eng, "engine.appendAuthHandler", "condAuthEnabled", c09If(0), []c09Param{{"fr.jwt.enabled", "enabled", "flag"}})
 		e.c09Cond(s, eng, "engine.appendAuthHandler", "condAuthNoPrev", c09If(1), []c09Param{{"fr.jwt.prevSecret", "prev", "str"}})
+		// round 5: what the constructed values are fed from
+		e.c09Fields(s, srv, "WithPrefix", "Route", "withPrefixRouteFields")
+		e.c09Calls(s, srv, "WithPrefix", "withPrefixCalls")
+		e.c09Fields(s, srv, "Server.AddRoutes", "featuredRoutes", "addRoutesFeaturedFields")
+		e.c09Calls(s, srv, "Server.AddRoutes", "serverAddRoutesCalls")
+		e.c09Fields(s, srv, "NewServer", "Server", "newServerFields")
+		e.c09Fields(s, pat, "NewRouter", "patRouter", "newRouterFields")
+		e.c09Fields(s, tree, "NewTree", "Tree", "newTreeFields")
+		e.c09Fields(s, tree, "newNode", "node", "newNodeFields")
 		// round 5: forwarded argument lists of the delegating entry points
 		e.c09Calls(s, srv, "Server.AddRoute", "serverAddRouteCalls")
 		e.c09Calls(s, srv, "MustNewServer", "mustNewServerCalls")
